@@ -452,6 +452,13 @@ n('C05', '_max_level: guard operands swapped', SOLVER,
   "            while n % 2 == 0 and n > 2:", "            while n > 2 and n % 2 == 0:")
 
 # ------------------------------------------------------------------- C17
+m('C17', 'Simulation.to_dict plain: survey reduced to the observed data', SIMS,
+  "            for key in ['synthetic', 'residual', 'weights']:\n                if key in out['survey']['data'].keys():\n                    del out['survey']['data'][key]",
+  "            out['survey']['data'] = {'observed': out['survey']['data']['observed']}",
+  'C17.K2.plain')
+n('C17', 'Simulation.to_dict plain: derived sets deleted one by one', SIMS,
+  "            for key in ['synthetic', 'residual', 'weights']:\n                if key in out['survey']['data'].keys():\n                    del out['survey']['data'][key]",
+  "            for key in ['synthetic', 'residual']:\n                if key in out['survey']['data'].keys():\n                    del out['survey']['data'][key]\n            if 'weights' in out['survey']['data'].keys():\n                del out['survey']['data']['weights']")
 m('C17', 'Survey.to_dict: noise_floor dropped', SURV,
   "            'noise_floor': self.data.noise_floor,\n", "", 'C17.K2')
 m('C17', 'Simulation.to_dict: receiver_interpolation dropped', SIMS,
@@ -485,6 +492,16 @@ n('C17', 'Survey.to_dict key order', SURV,
   "            'relative_error': self.data.relative_error,\n            'noise_floor': self.data.noise_floor,\n")
 
 # ------------------------------------------------------------------- C18
+m('C18', 'cli.run forward: synthetic data written', RUN,
+  "            output['data'] = sim.data.observed", "            output['data'] = sim.data.synthetic", 'C18.Q2.output')
+m('C18', 'cli.run gradient: misfit of the output taken before compute', RUN,
+  "            output['misfit'] = sim.misfit", "            output['misfit'] = sim._misfit", 'C18.Q2.output')
+m('C18', 'parser: solver_opts only handed on with a gridding', PARSER,
+  "        if solver:\n            simulation['solver_opts'] = solver",
+  "        if solver and simulation.get('gridding', 'single') != 'same':\n            simulation['solver_opts'] = solver", 'C18.Q2.handover')
+n('C18', 'parser: layered_opts hand-over tested by length', PARSER,
+  "        if layered_opts:\n            simulation['layered_opts'] = layered_opts",
+  "        if len(layered_opts) > 0:\n            simulation['layered_opts'] = layered_opts")
 m('C18', 'run: cell_number no longer translated (defect F6 back)', RUN,
   "            gopts['cell_numbers'] = gopts.pop('cell_number')",
   "            pass", 'C18.Q2')
@@ -518,6 +535,12 @@ n('C18', 'parser: int key list reordered', PARSER,
   "        for key in ['tol', 'tol_gradient']:", "        for key in ['tol_gradient', 'tol']:")
 
 # ------------------------------------------------------------------- C20
+m('C20', 'ifreq_compute: all input frequencies computed', TIME,
+  "        return ((self.freq_coarse >= self.fmin) &\n                (self.freq_coarse <= self.fmax))",
+  "        if self.input_freq is not None:\n            return np.ones(np.size(self.freq_coarse), dtype=bool)\n        return ((self.freq_coarse >= self.fmin) &\n                (self.freq_coarse <= self.fmax))", 'C20.F1')
+n('C20', 'ifreq_compute: same mask on both arms of a setting', TIME,
+  "        return ((self.freq_coarse >= self.fmin) &\n                (self.freq_coarse <= self.fmax))",
+  "        if self.input_freq is not None:\n            return ((self.freq_coarse <= self.fmax) &\n                    (self.freq_coarse >= self.fmin))\n        return ((self.freq_coarse >= self.fmin) &\n                (self.freq_coarse <= self.fmax))")
 m('C20', 'ifreq_compute: >= -> >', TIME,
   "        return ((self.freq_coarse >= self.fmin) &",
   "        return ((self.freq_coarse > self.fmin) &", 'C20.F1')
@@ -723,6 +746,12 @@ m('C15', '_volume_average_weights: weight from the cell centre', MAPS,
   "            wx[ii] = xs[i+1]-xs[i]", "            wx[ii] = center-xs[i]", 'C15.VA4')
 
 # ------------------------------------------------------------------- C19
+m('C19', '_empymod_fwd: isotropic if the conductivities are close', MP,
+  "    aniso = None if cond_v is None else np.sqrt(cond_h/cond_v)",
+  "    aniso = None if cond_v is None or np.allclose(cond_h, cond_v) else np.sqrt(cond_h/cond_v)", 'C19.L3')
+n('C19', '_empymod_fwd: anisotropy through if/else', MP,
+  "    aniso = None if cond_v is None else np.sqrt(cond_h/cond_v)",
+  "    if cond_v is not None:\n        aniso = np.sqrt(cond_h/cond_v)\n    else:\n        aniso = None")
 m('C19', 'extract_1d: normalisation removed', MODELS,
   "            pp /= pp.sum()\n", "", 'C19.L1')
 m('C19', 'layered: finite mask not applied to the weights', MP,
